@@ -11,14 +11,12 @@ import ast
 from .model import dump
 from .flow import reaching_defs
 
-_rd_cache = {}
-
-
 def rd_of(cfg):
-    k = id(cfg)
-    if k not in _rd_cache:
-        _rd_cache[k] = (cfg, reaching_defs(cfg))
-    return _rd_cache[k][1]
+    rd = getattr(cfg, "_rd", None)
+    if rd is None:
+        rd = reaching_defs(cfg)
+        cfg._rd = rd
+    return rd
 
 
 def origin(cfg, node, expr, depth=0, seen=frozenset()):
